@@ -118,6 +118,12 @@ func Start(c Conf, root string) (*Server, error) {
 func start1(c Conf, root string) (*Server, error) {
 	s := &Server{Conf: c, Root: root, Notify: NewRecorder(), done: make(chan error, 1)}
 	s.Ports = Ports{Rtmp: FreePort(), Http: FreePort(), Rtsp: FreePort(), WsRtsp: FreePort(), Api: FreePort()}
+	s.Notify.PortProto = map[string][]string{
+		fmt.Sprint(s.Ports.Rtmp):   {"RTMP"},
+		fmt.Sprint(s.Ports.Http):   {"FLV", "TS", "HLS"},
+		fmt.Sprint(s.Ports.Rtsp):   {"RTSP"},
+		fmt.Sprint(s.Ports.WsRtsp): {"RTSP"},
+	}
 	// nested three levels deep so that path escapes are visible inside Root
 	s.HlsDir = filepath.Join(root, "out", "a", "hls") + "/"
 	s.FlvDir = filepath.Join(root, "out", "b", "flv") + "/"
@@ -250,6 +256,7 @@ type Event struct {
 }
 
 type Recorder struct {
+	PortProto map[string][]string // server port → protocols lal reports for sessions accepted there
 	mu     sync.Mutex
 	cond   *sync.Cond
 	Events []Event
@@ -338,13 +345,46 @@ func (r *Recorder) Wait(timeout time.Duration, from int, pred func(Event) bool) 
 
 // WaitSession waits for an event of kind for the session whose remote address is addr.
 func (r *Recorder) WaitSession(timeout time.Duration, kind, remoteAddr string) (Event, bool) {
-	return r.Wait(timeout, 0, func(e Event) bool { return e.Kind == kind && e.RemoteAddr == remoteAddr })
+	return r.Wait(timeout, 0, func(e Event) bool { return e.Kind == kind && r.Match(e, remoteAddr) })
+}
+
+// Key identifies a harness connection for matching lal's notifications: "<client addr>@<server port>".
+// The client address alone is ambiguous: the kernel hands the same ephemeral port to two
+// connections of one process when their destinations differ (e.g. one to the RTMP listener and
+// one to the HTTP listener), and lal reports only the remote (client) address of a session. With
+// hundreds of connections per case that happened about once per thousand sessions; under load
+// the older session's notification was then taken for the newer connection's admission.
+func Key(c net.Conn) string {
+	_, port, _ := net.SplitHostPort(c.RemoteAddr().String())
+	return c.LocalAddr().String() + "@" + port
+}
+
+// Match reports whether event e belongs to the connection named by key (a Key() value, or a bare
+// client address for callers that have no connection at hand).
+func (r *Recorder) Match(e Event, key string) bool {
+	k := strings.IndexByte(key, '@')
+	if k < 0 {
+		return e.RemoteAddr == key
+	}
+	if e.RemoteAddr != key[:k] {
+		return false
+	}
+	protos, known := r.PortProto[key[k+1:]]
+	if !known || e.Protocol == "" {
+		return true
+	}
+	for _, p := range protos {
+		if p == e.Protocol {
+			return true
+		}
+	}
+	return false
 }
 
 // WaitSessionFrom is WaitSession restricted to events recorded at index ≥ from (local ports are
 // reused across thousands of connections, so an old event may carry the same remote address).
 func (r *Recorder) WaitSessionFrom(timeout time.Duration, from int, kind, remoteAddr string) (Event, bool) {
-	return r.Wait(timeout, from, func(e Event) bool { return e.Kind == kind && e.RemoteAddr == remoteAddr })
+	return r.Wait(timeout, from, func(e Event) bool { return e.Kind == kind && r.Match(e, remoteAddr) })
 }
 
 func (r *Recorder) Len() int {
